@@ -3,7 +3,7 @@
 using namespace vf;
 
 namespace {
-enum PK { START_TASK = 0, START_FUNCTOR, CLEAR, DRAIN, STOP, GETTERS, OWNER_YIELD };
+enum PK { START_TASK = 0, START_FUNCTOR, CLEAR, DRAIN, STOP, GETTERS, OWNER_YIELD, ADVANCE_TIME, UPDATE };
 
 Register r07("C07", [](Tier t) {
     int n = t == THOROUGH ? 20 : 10, sl = t == THOROUGH ? 240 : 120;
@@ -17,7 +17,12 @@ Register r08("C08", [](Tier t) {
     // weighted towards start*; stop with few tasks and workers, and stop/restart cycles
     auto ops = genOps({{START_TASK, 8, 0, 2, 0}, {STOP, 5, 0, 0, 0}, {START_FUNCTOR, 2, 0, 2, 0}, {DRAIN, 2, 0, 0, 0},
                        {OWNER_YIELD, 4, 0, 0, 0}, {CLEAR, 1, 0, 0, 0}, {GETTERS, 2, 0, 0, 0}}, n);
-    return genCase("C08", genHeader({{0, t == THOROUGH ? 5 : 2}}), ops, genSched(sl));
+    // expiring workers under a virtual clock: time passes only through ADVANCE_TIME; update() wakes and reaps expired workers
+    auto opsx = genOps({{START_TASK, 9, 0, 2, 0}, {ADVANCE_TIME, 6, 0, 3, 0}, {UPDATE, 6, 0, 0, 1}, {STOP, 4, 0, 0, 0}, {OWNER_YIELD, 4, 0, 0, 0},
+                        {START_FUNCTOR, 1, 0, 2, 0}, {DRAIN, 1, 0, 0, 0}, {GETTERS, 2, 0, 0, 0}, {CLEAR, 1, 0, 0, 0}}, n + 4);
+    // h[0]: max thread count - 1; h[1]: expiry selector (0: non-expiring, 1..3: 0 / 5 / 20 virtual ms)
+    return rc::gen::weightedOneOf<Case>({{3, genCase("C08", genHeader({{0, t == THOROUGH ? 5 : 2}, {0, 0}}), ops, genSched(sl))},
+                                         {2, genCase("C08", genHeader({{0, t == THOROUGH ? 5 : 3}, {1, 3}}), opsx, genSched(sl))}});
 });
 Register r20("C20", [](Tier t) {
     // h: callable kind (fn pointer | small closure | large closure | Runnable), #lvalue args, via constructor, #isFinished polls
@@ -32,11 +37,20 @@ EnumSpace poolspace(const std::string &prop) {
         {}, {START_TASK}, {START_TASK, START_TASK}, {START_TASK, START_TASK, START_TASK}, {START_FUNCTOR}, {START_TASK, OWNER_YIELD}, {START_TASK, DRAIN},
         {START_TASK, START_TASK, DRAIN}, {START_TASK, CLEAR}, {START_TASK, START_TASK, CLEAR, DRAIN}, {START_TASK, STOP, START_TASK}, {START_TASK, STOP, START_TASK, DRAIN},
         {START_TASK, START_TASK, STOP}, {STOP, START_TASK}, {START_TASK, CLEAR, START_TASK, DRAIN}, {START_FUNCTOR, START_TASK, DRAIN}};
-    e.count = progs.size() * 3;
-    e.description = "ThreadPool owner programs: 16 fixed short programs (0-3 tasks, clear/drain/stop/restart) x max thread count in {1,2,3}";
+    // expiring workers (virtual clock, expiry 5 ms; ADVANCE_TIME here always means 25 ms) - C08 only
+    static const std::vector<std::vector<int>> xprogs = {
+        {START_TASK, ADVANCE_TIME}, {START_TASK, START_TASK, ADVANCE_TIME}, {START_TASK, ADVANCE_TIME, UPDATE}, {START_TASK, START_TASK, ADVANCE_TIME, UPDATE, OWNER_YIELD, UPDATE},
+        {START_TASK, ADVANCE_TIME, UPDATE, START_TASK, START_TASK}, {START_TASK, START_TASK, ADVANCE_TIME, UPDATE, START_TASK, START_TASK, START_TASK},
+        {START_TASK, ADVANCE_TIME, START_TASK}, {START_TASK, START_TASK, START_TASK, ADVANCE_TIME}};
+    const size_t nx = prop == "C08" ? xprogs.size() : 0;
+    e.count = (progs.size() + nx) * 3;
+    e.description = "ThreadPool owner programs: 16 fixed short programs (0-3 tasks, clear/drain/stop/restart) with non-expiring workers, and for C08 8 more with workers "
+                    "that expire after 5 virtual ms (time passes, update(), further submissions), each x max thread count in {1,2,3}";
     e.at = [prop](size_t i) {
-        Case c; c.prop = prop; c.h = {(int)(i % 3)};
-        for (int k : progs[i / 3]) c.ops.push_back(Op{k, 0, 0, 0});
+        Case c; c.prop = prop;
+        size_t pi = i / 3;
+        if (pi < progs.size()) { c.h = {(int)(i % 3), 0}; for (int k : progs[pi]) c.ops.push_back(Op{k, 0, 0, 0}); }
+        else { c.h = {(int)(i % 3), 2}; for (int k : xprogs[pi - progs.size()]) c.ops.push_back(Op{k, 0, 2, 0}); }
         return c;
     };
     return e;
